@@ -186,7 +186,7 @@ def c09(ctx):
             runs = run_sharded(ctx, "c09", 8, lambda i: ["-seed", str(ctx.seed * 1000 + i), "-n", "1500", "-depth", "2" if i == 0 else "0",
                                                          "-serial=%s" % ("true" if i == 1 else "false")], 600)
         else:
-            runs = run_sharded(ctx, "c09", 16, lambda i: ["-seed", str(ctx.seed * 1000 + i), "-n", "40000", "-depth", "3" if i == 0 else "0",
+            runs = run_sharded(ctx, "c09", 16, lambda i: ["-seed", str(ctx.seed * 1000 + i), "-n", "12000", "-depth", "3" if i == 0 else "0",
                                                           "-serial=%s" % ("true" if i == 1 else "false")], 3000)
         for r in runs:
             absorb(res, "C09", *r)
@@ -228,19 +228,19 @@ def c04(ctx):
     """C04 nested ordered map: every API result and every dump of the implementation vs Spec.v.
     Assumes: root bucket reached only through Tx methods; bucket names <= 32768 bytes. About one history in 24 ends by moving a bucket into its own subtree (known finding D4:
     the reference refuses, the code returns nil and drops the subtree); every other disagreement is a violation."""
-    return _hist(ctx, "c04", "none", HIST_RULE, 400, 30000, as_propfail=True, extra_args=("-selfmoves",))
+    return _hist(ctx, "c04", "none", HIST_RULE, 400, 8000, as_propfail=True, extra_args=("-selfmoves",))
 
 
 def c07(ctx):
     """C07 page accounting: after every commit the file bytes are decoded by the extracted Coq reader (Layout.v) and
     Layout.accounted / key order / element bounds / file length are evaluated; Tx.Check must be clean at the end of every history."""
-    res = _hist(ctx, "c07", "commit", HIST_RULE + "; one file image per commit; plus failed-commit histories (every I/O call index of a commit failed once, see C08) checked for the same accounting", 240, 16000)
+    res = _hist(ctx, "c07", "commit", HIST_RULE + "; one file image per commit; plus failed-commit histories (every I/O call index of a commit failed once, see C08) checked for the same accounting", 240, 4000)
     # failed transactions are part of C07's quantifier: the C08 fault histories, judged by the accounting rules only
     if not ctx.replay:
         ctx2 = Ctx(pid="C07", tier=ctx.tier, seed=ctx.seed, replay=None, t0=ctx.t0, budget_s=ctx.budget_s)
         ctx2.dir = ctx.dir + ".f"
         with ctx2:
-            runs = run_sharded(ctx2, "c08", 8, lambda i: ["-seed", str(ctx.seed * 1000 + 500 + i), "-n", "2" if (ctx.tier == "quick" or ctx.budget_s) else "20", "-dir", "{dir}"],
+            runs = run_sharded(ctx2, "c08", 8, lambda i: ["-seed", str(ctx.seed * 1000 + 500 + i), "-n", "2" if (ctx.tier == "quick" or ctx.budget_s) else "8", "-dir", "{dir}"],
                                ctx.budget_s or (900 if ctx.tier == "quick" else 3000), oracle_mode="c07")
             for r in runs:
                 absorb(res, "C07", *r)
@@ -249,7 +249,7 @@ def c07(ctx):
 
 def c12(ctx):
     """C12 format: every file image is decoded by the extracted independent reader and compared with the API dump taken just before the commit."""
-    return _hist(ctx, "c12", "commit", HIST_RULE + "; one file image per commit", 240, 16000)
+    return _hist(ctx, "c12", "commit", HIST_RULE + "; one file image per commit", 240, 4000)
 
 
 def c05(ctx):
@@ -264,7 +264,7 @@ def c05(ctx):
         if ctx.tier == "quick":
             runs = run_sharded(ctx, "c05", 8, lambda i: ["-seed", str(ctx.seed * 1000 + i), "-n", "40", "-exh", "2", "-rand", "30", "-dir", "{dir}"], 600)
         else:
-            runs = run_sharded(ctx, "c05", 16, lambda i: ["-seed", str(ctx.seed * 1000 + i), "-n", "320", "-exh", "3", "-rand", "60", "-dir", "{dir}"], ctx.budget_s or 3000)
+            runs = run_sharded(ctx, "c05", 16, lambda i: ["-seed", str(ctx.seed * 1000 + i), "-n", "160", "-exh", "2", "-rand", "60", "-dir", "{dir}"], ctx.budget_s or 3000)
         for r in runs:
             absorb(res, "C05", *r)
     return res
@@ -275,7 +275,7 @@ PG_RULE = HIST_RULE + ("; recorded with every WriteAt/fdatasync/truncate/mmap ca
                        "the real freelist after every writer begin/commit/rollback, its version page set with the independent decoder's, its allocated set with the pages actually written")
 
 
-def _fault_extra(ctx, res, pid, mode, as_propfail=False, n_quick="2", n_thorough="20"):
+def _fault_extra(ctx, res, pid, mode, as_propfail=False, n_quick="2", n_thorough="8"):
     """failed commits are part of this property's quantifier too: the C08 fault histories (every I/O call index of a commit failed once, with and without a reader
     held across the failure, followed by page-recycling writers), judged by this property's rules only"""
     if ctx.replay:
@@ -297,7 +297,7 @@ def _fault_extra(ctx, res, pid, mode, as_propfail=False, n_quick="2", n_thorough
 def c06(ctx):
     """C06 no overwrite of visible pages: (S) every real WriteAt is intersected with the decoder-computed page sets of the newest committed state and of every
     open reader's state, meta writes must hit the other slot; (K) Pager.v replayed on the real freelist events. Domain: files made by Open + histories."""
-    res = _hist(ctx, "c06", "commit+io", PG_RULE + "; plus failed-commit histories (see C08)", 240, 16000)
+    res = _hist(ctx, "c06", "commit+io", PG_RULE + "; plus failed-commit histories (see C08)", 240, 4000)
     _fault_extra(ctx, res, "C06", "c06")
     return res
 
@@ -305,7 +305,7 @@ def c06(ctx):
 def c10(ctx):
     """C10 reclamation: (S) after every writer begin with no reader open nothing is pending; no page of an open reader's version is ever in the free list; published
     FreePageN/PendingPageN equal the live freelist; (K) Pager.v replayed on the real freelist events (free and pending sets compared after every step)."""
-    res = _hist(ctx, "c10", "commit+io", PG_RULE + "; plus failed-commit histories (see C08)", 240, 16000)
+    res = _hist(ctx, "c10", "commit+io", PG_RULE + "; plus failed-commit histories (see C08)", 240, 4000)
     _fault_extra(ctx, res, "C10", "c10")
     return res
 
@@ -314,7 +314,7 @@ def c02(ctx):
     """C02 snapshot isolation: every open read transaction is fully re-dumped (recursive buckets, values, sequences, cursor order) after every writer event and compared
     with the Spec.v state of its begin; histories always hold readers of different ages across commits, rollbacks, page reuse, grow and remap (blocked commits are
     observed, the readers the harness then closes are inputs)."""
-    res = _hist(ctx, "c04", "none", HIST_RULE + "; every history holds up to 3 readers open and re-dumps each after every writer event; plus failed-commit histories with a reader held across the failure", 400, 30000,
+    res = _hist(ctx, "c04", "none", HIST_RULE + "; every history holds up to 3 readers open and re-dumps each after every writer event; plus failed-commit histories with a reader held across the failure", 400, 8000,
                 as_propfail=True, extra_args=("-readers",))
     _fault_extra(ctx, res, "C02", "c08", as_propfail=True)
     return res
@@ -332,7 +332,7 @@ def c11(ctx):
         if ctx.tier == "quick" or ctx.budget_s:
             runs = run_sharded(ctx, "c11", 8, lambda i: ["-seed", str(ctx.seed * 100 + i), "-dir", "{dir}"] + (["-n", "1", "-full"] if i == 0 else (["-n", "5", "-huge"] if i == 1 else ["-n", "6"])), 900)
         else:
-            runs = run_sharded(ctx, "c11", 16, lambda i: ["-seed", str(ctx.seed * 100 + i), "-n", "5", "-dir", "{dir}", "-full"] + (["-huge"] if i == 1 else []), ctx.budget_s or 3000)
+            runs = run_sharded(ctx, "c11", 16, lambda i: ["-seed", str(ctx.seed * 100 + i), "-dir", "{dir}"] + (["-n", "3", "-huge"] if i == 1 else ["-n", "2", "-full"]), ctx.budget_s or 3000)
         for r in runs:
             absorb(res, "C11", *r)
     return res
@@ -347,7 +347,7 @@ def c08(ctx):
     res.rule = ("one case = (workload, failing call index k, reader held or not); distinct by MD5 of the op list; non-trivial if the fault hit (flag fault-<kind>); "
                 "workloads: 1-4 committed transactions then a burst of 3-43 puts (values up to 3 pages), page sizes 1024-16384, both backends, freelist-sync on/off, small initial map (remap in the failing commit)")
     with ctx:
-        n = "3" if (ctx.tier == "quick" or ctx.budget_s) else "40"
+        n = "3" if (ctx.tier == "quick" or ctx.budget_s) else "16"
         shards = 8 if ctx.tier == "quick" else 16
         if ctx.replay:
             runs = run_sharded(ctx, "c08", 1, lambda i: ["-replay", ctx.replay, "-dir", "{dir}"], 900)
@@ -361,14 +361,14 @@ def c08(ctx):
 
 
 def c13(ctx):
-    """C13 options: every history is run under K option schedules (quick K=5, thorough K=24) that re-draw, at EVERY open, the freelist backend, freelist-sync, grow-sync, initial map size,
+    """C13 options: every history is run under K option schedules (quick K=5, thorough K=12) that re-draw, at EVERY open, the freelist backend, freelist-sync, grow-sync, initial map size,
     StrictMode, the page size (first open only) and slip in read-only opens with/without PreLoadFreelist; all API results and dumps of every schedule are compared with the single Spec.v run
     (so they are equal to each other); every file image must satisfy the accounting predicate; after every open the code's free list must equal the decoder's scan (Pager.scan_free)."""
     res = Result()
     res.rule = HIST_RULE + "; each history under K option schedules; distinct by MD5 of the op list including the options of every open"
     with ctx:
-        k = "5" if (ctx.tier == "quick" or ctx.budget_s) else "24"
-        n = 10 if (ctx.tier == "quick" or ctx.budget_s) else 120
+        k = "5" if (ctx.tier == "quick" or ctx.budget_s) else "12"
+        n = 10 if (ctx.tier == "quick" or ctx.budget_s) else 50
         shards = 8 if ctx.tier == "quick" else 16
         if ctx.replay:
             runs = run_sharded(ctx, "c04", 1, lambda i: ["-replay", ctx.replay, "-img", "commit+io", "-dir", "{dir}"], 900, oracle_mode="c04", more_modes=("c07", "c13"))
@@ -396,7 +396,7 @@ def c15(ctx):
     res = Result()
     res.rule = "one case = one source database and 12 compactions of it; distinct by SHA-256 of the source; non-trivial if the source has nesting depth >= 3, an empty bucket, an empty value, a multi-page value or a non-zero sequence"
     with ctx:
-        n = "12" if (ctx.tier == "quick" or ctx.budget_s) else "400"
+        n = "12" if (ctx.tier == "quick" or ctx.budget_s) else "120"
         shards = 8 if ctx.tier == "quick" else 16
         runs = run_sharded(ctx, "c15", shards, lambda i: ["-seed", str(ctx.seed * 1000 + i), "-n", n, "-dir", "{dir}"], ctx.budget_s or (900 if ctx.tier == "quick" else 3000))
         for r in runs:
@@ -412,7 +412,7 @@ def c18(ctx):
     res = Result()
     res.rule = "distinct by MD5 of the op list (options included); non-trivial if the file grew, a transaction was refused, or the limit was exceeded"
     with ctx:
-        n = "12" if (ctx.tier == "quick" or ctx.budget_s) else "400"
+        n = "12" if (ctx.tier == "quick" or ctx.budget_s) else "120"
         shards = 8 if ctx.tier == "quick" else 16
         if ctx.replay:
             runs = run_sharded(ctx, "c18", 1, lambda i: ["-replay", ctx.replay, "-dir", "{dir}"], 900, oracle_mode="c04", more_modes=("c18", "c07"))
@@ -436,7 +436,7 @@ def c14(ctx):
     """C14 hot backup: histories with readers of every age; Tx.WriteTo into a writer that commits further write transactions on the same DB between the chunks of the copy
     (0, 1, 2 or 5 of them), and Tx.CopyFile; checked: bytes written = Tx.Size() = mark * pageSize, both metas valid with txids T and T-1, the copy opens, its dump = the Spec.v snapshot of the
     reader, decoder content/order/bounds/accounting, Tx.Check of the copy."""
-    return _hist(ctx, "c14", "none", HIST_RULE + "; plus hot backups through open readers with interleaved commits; non-trivial needs at least one backup", 240, 16000,
+    return _hist(ctx, "c14", "none", HIST_RULE + "; plus hot backups through open readers with interleaved commits; non-trivial needs at least one backup", 240, 4000,
                  as_propfail=True, extra_args=("-backups",))
 
 
@@ -460,7 +460,7 @@ def c01(ctx):
     with ctx:
         quick = ctx.tier == "quick" or ctx.budget_s
         runs = run_sharded(ctx, "c01", 8 if ctx.tier == "quick" else 16,
-                           lambda i: ["-seed", str(ctx.seed * 1000 + i), "-n", "5" if quick else "60", "-subsets", "6" if quick else "16", "-dir", "{dir}"],
+                           lambda i: ["-seed", str(ctx.seed * 1000 + i), "-n", "5" if quick else "18", "-subsets", "6" if quick else "10", "-dir", "{dir}"],
                            ctx.budget_s or (900 if ctx.tier == "quick" else 3300))
         for r in runs:
             absorb(res, "C01", *r)
@@ -473,11 +473,11 @@ def c19(ctx):
     every file is checked by Tx.Check and by `bbolt check` in a CHILD process (a fault after the first report counts as reported); whether a mutation corrupted anything is decided by the extracted decoder
     (decodable, key order, Layout.accounted), never by construction; all three verdicts must agree, in both directions."""
     res = Result()
-    res.rule = "one case = one database and up to 150 (quick) / 600 (thorough) mutated copies; evaluations = files checked; distinct by MD5 of the base file; non-trivial if at least one mutation was judged corrupt and one harmless"
+    res.rule = "one case = one database and up to 150 (quick) / 400 (thorough) mutated copies; evaluations = files checked; distinct by MD5 of the base file; non-trivial if at least one mutation was judged corrupt and one harmless"
     with ctx:
         quick = ctx.tier == "quick" or ctx.budget_s
         runs = run_sharded(ctx, "c19", 8 if ctx.tier == "quick" else 16,
-                           lambda i: ["-seed", str(ctx.seed * 1000 + i), "-n", "2" if quick else "14", "-maxmut", "150" if quick else "600", "-dir", "{dir}"],
+                           lambda i: ["-seed", str(ctx.seed * 1000 + i), "-n", "2" if quick else "6", "-maxmut", "150" if quick else "400", "-dir", "{dir}"],
                            ctx.budget_s or (900 if ctx.tier == "quick" else 3300))
         for r in runs:
             absorb(res, "C19", *r)
@@ -493,7 +493,7 @@ def c16(ctx):
     res.rule = "one case = one batch scenario (callers, scripts, batch size, delay); distinct by MD5 of these; non-trivial if some call failed or panicked; evaluations = callers judged"
     with ctx:
         quick = ctx.tier == "quick" or ctx.budget_s
-        runs = rejudge("c16", ctx.replay) if ctx.replay else run_sharded(ctx, "c16", 8 if ctx.tier == "quick" else 16, lambda i: ["-seed", str(ctx.seed * 1000 + i), "-n", "300" if quick else "6000", "-dir", "{dir}"], ctx.budget_s or (900 if ctx.tier == "quick" else 3000))
+        runs = rejudge("c16", ctx.replay) if ctx.replay else run_sharded(ctx, "c16", 8 if ctx.tier == "quick" else 16, lambda i: ["-seed", str(ctx.seed * 1000 + i), "-n", "300" if quick else "3000", "-dir", "{dir}"], ctx.budget_s or (900 if ctx.tier == "quick" else 3000))
         for r in runs:
             absorb(res, "C16", *r)
     return res
@@ -509,7 +509,7 @@ def c17(ctx):
     res.rule = "one case = one open/close sequence + one read-only session + CLI commands on a fresh database; distinct by MD5 of the operation list; non-trivial if it holds a lock grant, a refusal or a memory probe (every generated case does; refusals are counted in the distribution); evaluations = results judged"
     with ctx:
         quick = ctx.tier == "quick" or ctx.budget_s
-        runs = rejudge("c17", ctx.replay) if ctx.replay else run_sharded(ctx, "c17", 8 if ctx.tier == "quick" else 16, lambda i: ["-seed", str(ctx.seed * 1000 + i), "-n", "40" if quick else "600", "-dir", "{dir}"], ctx.budget_s or (900 if ctx.tier == "quick" else 3000))
+        runs = rejudge("c17", ctx.replay) if ctx.replay else run_sharded(ctx, "c17", 8 if ctx.tier == "quick" else 16, lambda i: ["-seed", str(ctx.seed * 1000 + i), "-n", "40" if quick else "300", "-dir", "{dir}"], ctx.budget_s or (900 if ctx.tier == "quick" else 3000))
         for r in runs:
             absorb(res, "C17", *r)
     return res
@@ -530,7 +530,7 @@ def c03(ctx):
         if ctx.replay:
             runs = rejudge("c03", ctx.replay)
         else:
-            runs = run_sharded(ctx, "c03", 8 if ctx.tier == "quick" else 16, lambda i: ["-seed", str(ctx.seed * 1000 + i), "-n", "250" if quick else "5000", "-dir", "{dir}"], ctx.budget_s or (900 if ctx.tier == "quick" else 3000))
+            runs = run_sharded(ctx, "c03", 8 if ctx.tier == "quick" else 16, lambda i: ["-seed", str(ctx.seed * 1000 + i), "-n", "250" if quick else "2500", "-dir", "{dir}"], ctx.budget_s or (900 if ctx.tier == "quick" else 3000))
             ok, out = C.build_harness_race()
             if not ok:
                 res.mismatches.append({"line": "race-enabled harness does not build: " + out[-600:]})
@@ -546,7 +546,7 @@ def c03(ctx):
                             for l in txt.splitlines()[:400]:
                                 t.write("# " + l + "\n")
                             t.write("hang DATA-RACE reported by the Go race detector (%d reports, seed %d)\nend\n" % (txt.count("WARNING: DATA RACE"), ctx.seed * 1000 + 500 + i))
-                runs += run_sharded(ctx, "c03", 4 if ctx.tier == "quick" else 8, lambda i: ["-seed", str(ctx.seed * 1000 + 500 + i), "-n", "40" if quick else "1500", "-mode", "free", "-dir", "{dir}"],
+                runs += run_sharded(ctx, "c03", 4 if ctx.tier == "quick" else 8, lambda i: ["-seed", str(ctx.seed * 1000 + 500 + i), "-n", "40" if quick else "400", "-mode", "free", "-dir", "{dir}"],
                                     ctx.budget_s or (900 if ctx.tier == "quick" else 3000), exe=C.harness_race_exe(), env={"GORACE": "log_path={dir}/race halt_on_error=0"}, post=post, tag="race")
                 res.extra["race_detector"] = "free cases re-run in a -race build; GORACE log_path collected per shard"
         for r in runs:
